@@ -698,14 +698,15 @@ impl<T> TooDee<T> {
             let suffix = p.add(self.num_cols);
             ptr::copy(p, suffix, len - start);
             
-            // Only iterates a maximum of `self.num_cols` times.
-            while p < suffix {
+            // Counted rather than `while p < suffix`: for zero-sized types the
+            // pointers never differ and the new row would not be consumed.
+            for _ in 0..self.num_cols {
                 if let Some(e) = iter.next() {
                     ptr::write(p, e);
                     p = p.add(1);
                 } else {
                     // panic if the iterator length is less than expected
-                    assert_eq!(p, suffix, "unexpected iterator length");
+                    panic!("unexpected iterator length");
                 }
             }
             
